@@ -82,6 +82,7 @@ Record segobs := {
 Inductive fobs :=
 | FMissing               (* fs.ErrNotExist *)
 | FBad                   (* any other error: unreadable, not decodable, not exactly one segment *)
+| FNoFrag                (* decodes to one segment without fragments (e.g. a lone styp box) *)
 | FSeg (o : segobs).
 
 Inductive init_obs :=
@@ -122,6 +123,7 @@ Fixpoint number_loop (thumb : option Z) (files : list fobs) (startNr endNr nr ds
     match f with
     | FMissing => Ok (acc, dsd, u32 (nr - 1))
     | FBad => Err "readSegment"
+    | FNoFrag => Panic "readMP4Segment: index out of range [0] with length 0"   (* s.Fragments[0] *)
     | FSeg o =>
       let '(sg, dsd') := match thumb with
                          | None => read_mp4 dsd o nr
@@ -160,6 +162,7 @@ Fixpoint time_reads (tfile : Z -> fobs) (n : nat) (t d dsd : Z) (acc : list cseg
     match tfile t with
     | FSeg o => let '(sg, dsd') := read_mp4 dsd o 0 in
                 time_reads tfile k (u64 (t + d)) d dsd' (acc ++ [sg])
+    | FNoFrag => Panic "readMP4Segment: index out of range [0] with length 0"
     | _ => Err "readMP4Segment"
     end
   end.
